@@ -185,7 +185,7 @@ def tok_node(ex, node):
     return out
 
 
-NUMS = ['0', '-0', '1', '5', '-5', '10', '5.0', '5.00', '4.9', '5.1', '4.99', '5.01', '0.1', '0.10', '0.11', '-0.1', '12345678901234567890',
+NUMS = ['0', '-0', '-0.0', '0.0', '-0.00', '1', '5', '-5', '10', '5.0', '5.00', '4.9', '5.1', '4.99', '5.01', '0.1', '0.10', '0.11', '-0.1', '12345678901234567890',
         '12345678901234567891', '0.000000000000000000001', '99999999999999999999.9', '-1.50', '3.14']
 STRS = ['""', '"a"', '"ab"', '"abc"', '"\\u0061"', '"\\u00e9"', '"é"', '"\\ud83d\\ude00"', '"a b"', '"1"', '"null"', '"\\n"', '"\\\\"']
 OTHERS = ['true', 'false', 'null']
